@@ -152,6 +152,14 @@ func runKV(w *bufio.Writer, c Case, cs string, stats map[string]int) {
 		if err != nil {
 			p = []byte("s")
 		}
+		// the caller's prefix slice may have spare capacity (every second case): a wrapper that
+		// appends to it without copying would let later keys overwrite earlier ones (seed C18f)
+		kvPrefixToggle = !kvPrefixToggle
+		if kvPrefixToggle {
+			buf := make([]byte, len(p), len(p)+64)
+			copy(buf, p)
+			p = buf
+		}
 		db = dbm.NewPrefixDB(base, p)
 	}
 	for _, op := range c.Ops {
@@ -167,6 +175,8 @@ func runKV(w *bufio.Writer, c Case, cs string, stats map[string]int) {
 }
 
 var _ = errors.New
+
+var kvPrefixToggle bool
 
 // generator
 var kvBytes = []byte{0x00, 0x61, 0xff}
